@@ -598,4 +598,7 @@ Proof. intros Fg Fm H. unfold PsetMaps.deserialize in H.
   { apply (f_equal (@length _)) in E2. rewrite skipn_length in E2. cbn [length] in E2. lia. }
   rewrite skipn_length in L2. lia. Qed.
 
+Lemma deserialize_global bs' p : deserialize (magic ++ bs') = POk p -> exists r, PsetMaps.dec_map maxvec Tg postg bs' = POk (p_global p, r).
+Proof. unfold PsetMaps.deserialize. destruct (dec_pset _) as [[p' rest]|] eqn:D; [|discriminate]. cbn [pbind fst snd]. destruct rest; [|discriminate]. intros H; inversion H; subst p'.
+  destruct (dec_pset_inv _ _ _ D) as (r0 & g & r1 & ins & r2 & outs & E & Dg & _ & _ & _ & _ & ->). apply app_inv_head in E. subst r0. cbn [p_global]. eauto. Qed.
 End PSET.
